@@ -195,7 +195,7 @@ Qed.
 Definition ex_init : ccirc := (2%nat, [GX 1]).
 Definition ex_bell : ccirc := (2%nat, [GH 0; GCX 0 1]).
 Definition ex_flip : ccirc := (2%nat, [GRX 0 1]).
-Definition ex_other : spub ccirc cparams cwiring := (measure_all cwid (2%nat, [GX 1]), [], 64%Z).
+Definition ex_other : spub ccirc cparams cwiring := (measure_all cwid (2%nat, [GX 1]), [], 1024%Z).  (* a foreign pub with ITS OWN shots *)
 Definition ex_obs : cobs := [(1%Q, [(0, PZ); (1, PZ)]); ((1 # 2)%Q, [(0, PZ)])].
 Definition ex_stack : stack ccirc clayout (spub ccirc cparams cwiring) :=
   STranspile (pm_route [(0, 2)] [(1, 2)]) (SBatch [ex_other] [ex_other; ex_other] (SMutex SRaw)).
